@@ -65,9 +65,11 @@ Inductive uevent := UOpen (name uid : N) | UOpenFail (name : N) | UClose (uid : 
 Inductive cop :=
 | COpen (name : N) (fail : bool)     (* OpenDB(name); [fail]: the underlying OpenDB would return an error *)
 | CClose (name : N) | CDrop (name : N)          (* on the newest handle returned for name *)
-| CCloseH (uid : N) | CDropH (uid : N).         (* on the handle wrapping store uid (possibly stale) *)
+| CCloseH (uid : N) | CDropH (uid : N)          (* on the handle wrapping store uid (possibly stale) *)
+| CCloseE (name : N).   (* Close on the newest handle of name; the underlying Close, if reached, returns an error *)
 
-Inductive cres := RHandle (uid : N) | ROpenErr | ROk | ROverClose | RNoHandle | RPanic | RDead.
+Inductive cres := RHandle (uid : N) | ROpenErr | ROk | ROverClose | RNoHandle | RPanic | RDead
+  | RCloseErr.   (* the underlying Close failed: its error is returned; the entry is already released *)
 
 Definition count_of (name : N) (s : cstate) : N :=
   match alookup name (refc s) with Some n => n | None => 0 end.
@@ -185,6 +187,14 @@ Definition cstep (s : cstate) (o : cop) : cstate * cres * list uevent :=
                    | Some name => close_h uid name s | None => (s, RNoHandle, []) end
   | CDropH uid => match alookup uid (handles s) with
                   | Some name => drop_h uid name s | None => (s, RNoHandle, []) end
+  | CCloseE name =>
+      (* CloseFn deletes opened[name] / refCounter[name] BEFORE calling realClose and returns
+         realClose()'s error unchanged: the state change is that of a successful last close *)
+      match newest_handle name (handles s) with
+      | Some uid => let '(s', r, ev) := close_h uid name s in
+                    (s', match ev with [] => r | _ => RCloseErr end, ev)
+      | None => (s, RNoHandle, [])
+      end
   end.
 
 Fixpoint crun (s : cstate) (ops : list cop) : cstate * list (cop * cres * list uevent) :=
